@@ -56,10 +56,15 @@ Definition pmap := list Z.
 Definition pm_mem (pm : pmap) (pid : Z) : bool := existsb (Z.eqb pid) pm.
 Definition pm_add (pm : pmap) (pid : Z) : pmap := if pm_mem pm pid then pm else pm ++ [pid].
 
+(* the buffer is emptied on a discontinuity, except when the discontinuity is only signalled (the counter is
+   continuous) on a packet that starts a new payload: the previous payload is then whole and gets flushed *)
+Definition resets (q : queue) (p : Packet) : bool :=
+  hasDiscontinuity q p && (negb (pusi p) || hasCounterDiscontinuity q p).
+
 (* packetAccumulator.add: new queue, flushed packets ([] = nothing flushed) *)
 Definition acc_add (pm : pmap) (pid : Z) (q : queue) (p : Packet) : queue * list Packet :=
   if isSameAsPrevious q p then (q, []) else
-  let q1 := if hasDiscontinuity q p then [] else q in
+  let q1 := if resets q p then [] else q in
   let '(ps, q2) := if pusi p then (q1, []) else ([], q1) in
   let q3 := q2 ++ [p] in
   if (Z.eqb pid C_PIDPAT || pm_mem pm pid) && is_psi_complete q3 then ([], q3) else (q3, ps).
